@@ -283,6 +283,8 @@ class Executor(StmtMixin, LoopMixin, DriverMixin):
                 v, key, ft = self.spec.read_field(s, obj, attr)
                 if isinstance(ft, ty.RefT):
                     self.type_facts(s, v)      # heap type invariant: a field holds an object of its declared class
+                    if z3.is_app(v.e) and v.e.decl().kind() == z3.Z3_OP_SELECT and str(v.e.arg(0)).startswith("H0_"):
+                        s.assume(ty.born(v.e) <= 0)   # read from the entry heap: the object existed at entry
                 if self.is_container(ft):
                     v = _LocSV(v.t, v.e, (obj.e, key))
                 return [(s, v)]
